@@ -205,6 +205,24 @@ def scan (t : Ty) (dst : Rep t) (data : Bytes) : Res (Rep t) :=
   | (.err, _) => .err
   | (.panic, _) => .panic
 
+/-! ### Histories of calls: `Marshal` allocates a fresh `Builder` per call, and `Builder.Packet` hands out the
+bytes written so far — a packet, once returned, is a value: nothing marshalled later changes it -/
+
+/-- one call: the field list (a tuple type) and the values -/
+structure Call where
+  t : Ty
+  v : Rep t
+
+/-- `p_i := Marshal(id_i, fields_i...)` for every call, all packets kept: the `Data` of every packet when they
+are looked at after the last call -/
+def marshalHist (calls : List Call) : List Bytes := calls.map fun c => marshal c.t c.v
+
+/-- one `Builder`; call `i` is `b.WriteField(fields_i...); p_i := b.Packet(id_i)`: packet `i` holds everything
+written so far (the Builder accumulates; `bytes.Buffer` only appends, so earlier packets keep their bytes) -/
+def builderHist (acc : Bytes) : List Call → List Bytes
+  | [] => []
+  | c :: cs => (acc ++ marshal c.t c.v) :: builderHist (acc ++ marshal c.t c.v) cs
+
 /-! ### Prior destination states (what the harness prepares; the driver rebuilds them from the mode) -/
 
 /-- a fixed non-zero value of every type -/
